@@ -375,6 +375,16 @@ func pureExternal(full string) bool {
 
 func (ex *Exec) knownExternal(full string, args []Val, st *State, cur *smt.Term, mkRes func(string) Val) (Val, bool) {
 	c := ex.W.C
+	// pure functions of the standard library whose results must be the same for the same argument:
+	// modelled as uninterpreted functions (shared with `ufun` declarations of the same name in contracts)
+	if strings.HasPrefix(full, "unicode.Is") || full == "unicode.ToUpper" || full == "unicode.ToLower" {
+		r := mkRes("uf")
+		if r.Tm != nil && len(args) == 1 && args[0].Tm != nil {
+			name := "uf_" + strings.Replace(full, ".", "_", 1)
+			ex.W.C.DeclareFun(name, []smt.Sort{args[0].Tm.Sort}, r.Tm.Sort)
+			return Val{T: r.T, Tm: c.App(name, r.Tm.Sort, args[0].Tm)}, true
+		}
+	}
 	switch full {
 	case "strings.Split", "strings.SplitN", "strings.Fields":
 		r := mkRes("split")
